@@ -21,8 +21,7 @@ GLUE = ["zr.ml", "rio.ml"]
 def extract_directives():
     """The Extract directives (verbatim) — part of the trusted base of Mode B."""
     src = open(os.path.join(vf.COQ, "Extract", "SecpExtract.v")).read()
-    return [re.sub(r"\s+", " ", m.group(0)).strip()
-            for m in re.finditer(r"^Extract (?:Inductive|Constant)[^.]*?\.\s*$", src, re.M | re.S)]
+    return [l.strip() for l in src.split("\n") if re.match(r"^Extract (Inductive|Constant)\b", l)]
 
 
 def trusted_base(pid):
@@ -181,7 +180,7 @@ def standard_run(ctx, spec):
     pid = ctx.pid
     broke = []
     if spec.get("uses_gen"):
-        ok, msg = vf.regen()
+        ok, msg = vf.regen(spec["uses_gen"] if isinstance(spec["uses_gen"], (list, tuple)) else True)
         if not ok:
             broke.append(("translation", msg[-1500:]))
             ctx.notes.append("translator: " + msg[-500:])
